@@ -9,6 +9,19 @@ def check(v):
     c = campaign(v.tier)
     cross_ops = sorted(set("cross:" + tidu for x in c.cases for (tidu, _) in getattr(x, "cross", [])))
     ops = ["ser", "feed", "sfeed"]
+    # pairs whose second type has no value that could be written down (array lengths that differ only
+    # above a narrower integer width, zero-sized items): run by the harness on the real API
+    fam = hash_family(c)
+    bad = [(name, res) for (name, res) in fam if not all(part.split("=")[1] in ("E:WrongTypeHash", "E:WrongAlignHash") for part in res.split(","))]
+    if bad:
+        run_proof_stage(v, "C04")
+        name, res = bad[0]
+        v.coverage.update({"evaluations": len(fam), "distinct_nontrivial": len(fam), "rule": "fixed family of array-length pairs only: one of them is accepted, the campaign was not evaluated",
+                           "hash_family": dict(fam)})
+        v.violation("hash_family", {"kind": "failing-input", "why": "bytes of a value of the first type read as the second type (%s): %s -- required a type-hash or alignment-hash error in both modes" % (name, res),
+                                    "pair": name, "observed": res, "failing_pairs_in_run": len(bad),
+                                    "replay": "serialize the value of the first type ([(); n] / [PhantomData; n] of n items) and call deserialize_eps / deserialize_full for the second type (harness/src/codec.rs hash_family_obs)"})
+        return
     run_codec_property(v, "C04", ops, oracle_c04,
                        rule_extra="Pairs: every chosen generated definition against its mutants (type name, field renamed, fields swapped, field type of the same size, copy kind, repr attribute, const value, const name, variant renamed, variants reordered) and built-in near-misses (sequence kind, array length, tuple arity, sum kind, element type, generic argument).")
     # the cross observations are compared here (their names depend on the pair)
@@ -25,10 +38,23 @@ def check(v):
                           "searched": "direct oracle of C04 on all cross reads: no failing input"})
                 v.violation("correspondence", d, no_input=True)
     v.coverage["cross_reads"] = sum(kinds.values())
+    v.coverage["hash_family"] = dict(fam)
     v.coverage["near_miss_kinds"] = kinds
     v.coverage["feeds_compared"] = sum(1 for x in c.cases if (x.cid, "feed") in c.iobs)
     v.assumptions.append("64-bit collision-freeness of xxh3 on the compared feeds is not provable: theorems carry H f1 <> H f2 as a hypothesis; the check confirms with the real hash that every generated pair with different feeds has different hash words (they are refused)")
     v.coverage.setdefault("samples", []).append({"theorem": "C04_cross_read_refused: forall H pf tw tu nmw nmu v evs base, ... (H (tfeed tw) <> H (tfeed tu) \\/ ...) -> exists e, (e = WrongTypeHash .. \\/ e = WrongAlignHash ..) /\\ deser_full_top .. = Err e /\\ deser_eps_top .. = Err e"})
+
+
+def hash_family(c):
+    """[(pair, 'full=..,eps=..')] from the harness (both builds)"""
+    out = []
+    for obs, label in ((c.iobs, ""), (getattr(c, "iobs2", None) or {}, "[build without debug assertions] ")):
+        line = obs.get(("_", "hashfam"), "")
+        for ent in line.split("|"):
+            if "~" in ent:
+                name, res = ent.split("~", 1)
+                out.append((label + name, res))
+    return out
 
 
 def replay(v, path):
